@@ -1,10 +1,318 @@
-/- Line-protocol handlers for C12 (placeholder until the property is built). -/
-import PandoraModel.Model.Basic
+/- Line-protocol handlers for C12 (confidence bands): model AND specification evaluation. -/
+import PandoraModel.Model.Confidence
 
 namespace Pandora.Driver.C12
 open Lean (Json)
+open Pandora Pandora.Confidence
 
-def handle (op : String) (_j : Json) : Except String Json :=
-  throw s!"unknown op {op}"
+/-! ### wire helpers -/
+
+def volumeOfJson (j : Json) : Except String Volume := listOfJson (gridOfJson valOfJson) j
+def valGridOfJson (j : Json) : Except String (Grid Val) := gridOfJson valOfJson j
+def ratListOfJson (j : Json) : Except String (List Rat) := listOfJson ratOfJson j
+def valGridToJson (g : Grid Val) : Json := gridToJson valToJson g
+def natGridToJson (g : Grid Nat) : Json := gridToJson natToJson g
+def nameToJson (n : Name) : Json := Json.str (String.ofList n)
+def nameOfJson (j : Json) : Except String Name := (strOfJson j).map String.toList
+
+def optVal (o : Option Rat) : Val := match o with | some q => .num q | none => .nan
+
+def absRat (x : Rat) : Rat := if x < 0 then -x else x
+
+def valClose (tol : Rat) : Val → Val → Bool
+  | .nan, .nan => true
+  | .num a, .num b => decide (absRat (a - b) ≤ tol)
+  | _, _ => false
+
+/-- first cell `(r, c)` at which `p` fails, scanning a grid of pairs row by row -/
+def firstBad {α} (g : Grid α) (p : α → Bool) : Option (Nat × Nat) :=
+  (g.zipIdx.findSome? (fun (row, r) => (row.zipIdx.findSome? (fun (x, c) => if p x then none else some (r, c)))))
+
+def badToJson : Option (Nat × Nat) → Json
+  | none => Json.null
+  | some (r, c) => Json.arr #[natToJson r, natToJson c]
+
+def zip2 {α β} (a : Grid α) (b : Grid β) : Grid (α × β) := Spec.zipGrid Prod.mk a b
+
+def sameShape {α β} (a : Grid α) (b : Grid β) : Bool := a.map List.length == b.map List.length
+
+/-- smallest distance between a compared pair that is not equal by construction (harness aid for the
+    streams where float32 normalisation is inexact) -/
+def minOpt (a : Option Rat) (b : Rat) : Option Rat :=
+  match a with | none => some b | some x => some (if b < x then b else x)
+
+def ambMargin (mn mx : Rat) (etas : List Rat) (curve : Curve) : Option Rat :=
+  match pixelBest mn mx curve with
+  | none => none
+  | some m =>
+    (numsOf curve).foldl (fun acc c =>
+      if c = m then acc else
+      etas.foldl (fun acc e => minOpt acc (absRat ((c - mn) / (mx - mn) - ((m - mn) / (mx - mn) + e)))) acc) none
+
+def boundsMargin (mn mx tf thr : Rat) (curve : Curve) : Option Rat :=
+  (numsOf (possibility mn mx tf curve)).foldl (fun acc p =>
+    if p = 1 then acc else minOpt (minOpt acc (absRat (p - thr))) (absRat (1 - p))) none
+
+def gridMargin (v : Volume) (f : Curve → Option Rat) : Json :=
+  let m := (v.flatten).foldl (fun acc c => match f c with | none => acc | some x => minOpt acc x) none
+  match m with | none => Json.null | some x => ratToJson x
+
+/-! ### ops -/
+
+def opArange (j : Json) : Except String Json := do
+  let a ← field j "start" >>= ratOfJson
+  let b ← field j "stop" >>= ratOfJson
+  let s ← field j "step" >>= ratOfJson
+  return listToJson ratToJson (arange a b s)
+
+/-- ambiguity: model counts / band, specification counts / band, specification evaluated on `impl` (the band) -/
+def opAmbiguity (j : Json) : Except String Json := do
+  let v ← field j "cv" >>= volumeOfJson
+  let isMax ← field j "is_max" >>= boolOfJson
+  let etas ← field j "etas" >>= ratListOfJson
+  let normalization ← field j "normalization" >>= boolOfJson
+  let tol ← ratOfJson (fieldD j "tol" (Json.str "0"))
+  let impl ← field j "impl" >>= valGridOfJson
+  match globalMin v, globalMax v with
+  | some mn, some mx =>
+    let modelCounts := mapVolume (pixelAmbiguity mn mx etas) v
+    let modelBand := (ambiguityBand etas normalization 1 v).getD []
+    let specCounts := mapVolume (Spec.ambCount isMax mn mx etas) v
+    -- what the code computes: "best = min" whatever the measure (used to attribute a failure on a max measure)
+    let minCounts := mapVolume (Spec.ambCount false mn mx etas) v
+    let flat : List Rat := specCounts.flatten.map (fun (n : Nat) => (n : Rat))
+    let specVals : List Val := if normalization then normalizeWithPercentile 1 flat else flat.map Val.num
+    let specBand := regrid ((specCounts.headD []).length) specCounts.length (specVals.map (Val.map (fun x => 1 - x)))
+    let isConst (g : Grid Nat) : Bool :=
+      let flatC : List Rat := g.flatten.map (fun (n : Nat) => (n : Rat))
+      let clipped := flatC.map (clipRat (percentile flatC 1) (percentile flatC 99))
+      match lmin clipped, lmax clipped with | some a, some b => decide (a = b) | _, _ => true
+    -- the clipped ambiguity map is constant: for the specification's counts, or (max measure, finding F10) for the
+    -- best = min counts the code normalises
+    let constClipped := isConst specCounts || isConst minCounts
+    -- a constant clipped map has no normalised value (0/0): only the range clause speaks about it
+    let defBad := if normalization && isConst specCounts then (if sameShape impl specBand then none else some (0, 0))
+                  else if sameShape impl specBand then firstBad (zip2 impl specBand) (fun p => valClose tol p.1 p.2)
+                  else some (0, 0)
+    let rangeBad := if normalization then firstBad impl Spec.inUnit else none
+    return mkObj [
+      ("model_counts", natGridToJson modelCounts), ("model_band", valGridToJson modelBand),
+      ("spec_counts", natGridToJson specCounts), ("spec_band", valGridToJson specBand),
+      ("min_counts_differ", Json.bool (minCounts != specCounts)),
+      ("def_bad", badToJson defBad), ("range_bad", badToJson rangeBad),
+      ("clipped_constant", Json.bool constClipped),
+      ("margin", gridMargin v (ambMargin mn mx etas)),
+      ("two_distinct", Json.bool (decide (mn ≠ mx)))]
+  | _, _ => throw "no finite cost"
+
+def riskToVals (o : Option (Rat × Rat)) : Val × Val :=
+  match o with | some (a, b) => (.num a, .num b) | none => (.nan, .nan)
+
+def opRisk (j : Json) : Except String Json := do
+  let v ← field j "cv" >>= volumeOfJson
+  let isMax ← field j "is_max" >>= boolOfJson
+  let etas ← field j "etas" >>= ratListOfJson
+  let implMax ← field j "impl_max" >>= valGridOfJson
+  let implMin ← field j "impl_min" >>= valGridOfJson
+  let tol ← ratOfJson (fieldD j "tol" (Json.str "0"))
+  match globalMin v, globalMax v with
+  | some mn, some mx =>
+    let model := mapVolume (fun c => pixelRisk mn mx etas c (pixelSampled mn mx etas c)) v
+    let sampled := mapVolume (pixelSampled mn mx etas) v
+    let spec := mapVolume (fun c => riskToVals (Spec.risk isMax mn mx etas c)) v
+    let specMinBest := mapVolume (fun c => riskToVals (Spec.risk false mn mx etas c)) v
+    let impl := zip2 implMax implMin
+    let defBad := if sameShape impl spec then
+        firstBad (zip2 impl spec) (fun p => valClose tol p.1.1 p.2.1 && valClose tol p.1.2 p.2.2) else some (0, 0)
+    -- 0 <= risk_min <= risk_max wherever the pixel has a finite cost; NaN exactly elsewhere
+    let orderBad := if sameShape impl v then
+        firstBad (zip2 impl v) (fun p =>
+          match lmin (numsOf p.2), p.1.1, p.1.2 with
+          | none, .nan, .nan => true
+          | some _, .num a, .num b => decide (0 ≤ b) && decide (b ≤ a)
+          | _, _, _ => false) else some (0, 0)
+    let (m1, m2) := unzipGrid model
+    let (s1, s2) := unzipGrid spec
+    return mkObj [
+      ("model_max", valGridToJson m1), ("model_min", valGridToJson m2),
+      ("model_sampled", gridToJson (listToJson natToJson) sampled),
+      ("spec_max", valGridToJson s1), ("spec_min", valGridToJson s2),
+      ("min_best_differs", Json.bool (specMinBest != spec)),
+      ("def_bad", badToJson defBad), ("order_bad", badToJson orderBad),
+      ("margin", gridMargin v (ambMargin mn mx etas))]
+  | _, _ => throw "no finite cost"
+
+def opBounds (j : Json) : Except String Json := do
+  let v ← field j "cv" >>= volumeOfJson
+  let isMax ← field j "is_max" >>= boolOfJson
+  let thr ← field j "threshold" >>= ratOfJson
+  let disp ← field j "disp" >>= ratListOfJson
+  let implInf ← field j "impl_inf" >>= valGridOfJson
+  let implSup ← field j "impl_sup" >>= valGridOfJson
+  let implWta ← field j "impl_wta" >>= valGridOfJson     -- "nan" marks an invalid (all-NaN) pixel
+  match globalMin v, globalMax v with
+  | some mn, some mx =>
+    let model := mapVolume (pixelBounds mn mx (typeFactor isMax) thr disp) v
+    let (m1, m2) := unzipGrid model
+    let wta := (wtaMap isMax disp v).map (fun r => r.map optVal)
+    let impl := zip2 implInf implSup
+    let defBad := if sameShape impl v then
+        firstBad (zip2 impl v) (fun p => Spec.boundsOk isMax mn mx thr disp p.2 p.1.1 p.1.2) else some (0, 0)
+    -- every pixel with a finite cost: inf <= winner <= sup, the winner being the implementation's
+    let bracketBad := if sameShape impl v && sameShape implWta v then
+        firstBad (zip2 (zip2 impl implWta) v) (fun p =>
+          match lmin (numsOf p.2), p.1.2 with
+          | none, _ => true
+          | some _, .num d => Spec.bracket p.1.1.1 p.1.1.2 d
+          | some _, .nan => false) else some (0, 0)
+    return mkObj [
+      ("model_inf", valGridToJson m1), ("model_sup", valGridToJson m2), ("model_wta", valGridToJson wta),
+      ("def_bad", badToJson defBad), ("bracket_bad", badToJson bracketBad),
+      ("margin", gridMargin v (boundsMargin mn mx (typeFactor isMax) thr)),
+      ("two_distinct", Json.bool (decide (mn ≠ mx)))]
+  | _, _ => throw "no finite cost"
+
+def posToJson (p : Pos) : Json := Json.arr #[natToJson p.1, natToJson p.2]
+
+def opRegularize (j : Json) : Except String Json := do
+  let inf ← field j "inf" >>= valGridOfJson
+  let sup ← field j "sup" >>= valGridOfJson
+  let amb ← field j "amb" >>= valGridOfJson
+  let thr ← field j "threshold" >>= ratOfJson
+  let k ← field j "kernel" >>= natOfJson
+  let depth ← field j "depth" >>= natOfJson
+  let q ← field j "quantile" >>= ratOfJson
+  let implInf ← valGridOfJson (fieldD j "impl_inf" (Json.arr #[]))
+  let implSup ← valGridOfJson (fieldD j "impl_sup" (Json.arr #[]))
+  let (ls, rs) := borders thr k amb
+  let segs := ls.zip rs
+  let graph := connectedGraph segs depth
+  let (i', s') := graphRegularization inf sup segs graph q
+  return mkObj [
+    ("border_left", listToJson posToJson ls), ("border_right", listToJson posToJson rs),
+    ("graph", gridToJson Json.bool graph),
+    ("model_inf", valGridToJson i'), ("model_sup", valGridToJson s'),
+    ("widened", Json.bool (Spec.widened inf sup implInf implSup))]
+
+def ratGridOfJson (j : Json) : Except String (Grid Rat) := gridOfJson ratOfJson j
+
+def opStd (j : Json) : Except String Json := do
+  let img ← field j "img" >>= ratGridOfJson
+  let w ← field j "window" >>= natOfJson
+  let model := stdBandSq w img
+  let off := (w - 1) / 2
+  let nrows := img.length
+  let ncols := (img.headD []).length
+  -- specification: NaN on the frame, population variance of the centred window inside
+  let spec : Grid Val := (List.range nrows).map (fun r => (List.range ncols).map (fun c =>
+    if off ≤ r ∧ r + off < nrows ∧ off ≤ c ∧ c + off < ncols then Val.num (Spec.windowVar w img (r - off) (c - off))
+    else Val.nan))
+  return mkObj [("model_var", valGridToJson model), ("spec_var", valGridToJson spec)]
+
+def methodOfJson (j : Json) : Except String Method := do
+  let m ← field j "confidence_method" >>= strOfJson
+  match m with
+  | "ambiguity" =>
+    let etas ← field j "etas" >>= ratListOfJson
+    let n ← field j "normalization" >>= boolOfJson
+    return .ambiguity etas n
+  | "risk" =>
+    let etas ← field j "etas" >>= ratListOfJson
+    return .risk etas
+  | "interval_bounds" =>
+    let thr ← field j "possibility_threshold" >>= ratOfJson
+    let reg ← boolOfJson (fieldD j "regularization" (Json.bool false))
+    if reg then
+      let ind ← field j "ambiguity_indicator" >>= nameOfJson
+      let athr ← field j "ambiguity_threshold" >>= ratOfJson
+      let k ← field j "ambiguity_kernel_size" >>= natOfJson
+      let depth ← field j "vertical_depth" >>= natOfJson
+      let q ← field j "quantile_regularization" >>= ratOfJson
+      return .intervalBounds thr (some (ind, athr, k, depth, q))
+    else return .intervalBounds thr none
+  | "std_intensity" => return .stdIntensity
+  | _ => throw s!"unknown method {m}"
+
+def bandOfJson (j : Json) : Except String Band := do
+  let n ← field j "name" >>= nameOfJson
+  let d ← field j "data" >>= valGridOfJson
+  return ⟨n, d⟩
+
+def bandToJson (b : Band) : Json := mkObj [("name", nameToJson b.name), ("data", valGridToJson b.data)]
+
+def optBandsOfJson (j : Json) : Except String (Option (List Band)) :=
+  match j with
+  | Json.null => pure none
+  | _ => (listOfJson bandOfJson j).map some
+
+def optBandsToJson : Option (List Band) → Json
+  | none => Json.null
+  | some bs => listToJson bandToJson bs
+
+/-- a list of confidence steps on one side: model bands (cost volume and disparity datasets), the
+    names the specification expects, the later winner-takes-all map -/
+def opSteps (j : Json) : Except String Json := do
+  let v ← field j "cv" >>= volumeOfJson
+  let isMax ← field j "is_max" >>= boolOfJson
+  let disp ← field j "disp" >>= ratListOfJson
+  let img ← ratGridOfJson (fieldD j "img" (Json.arr #[]))
+  let w ← natOfJson (fieldD j "window" (Json.num 1))
+  let cvBands ← optBandsOfJson (fieldD j "cv_bands" Json.null)
+  let dispKind ← strOfJson (fieldD j "disp_kind" (Json.str "empty"))
+  let dispBands ← optBandsOfJson (fieldD j "disp_bands" Json.null)
+  let dispDS : DispDS := if dispKind == "none" then .none else .ds dispBands
+  let steps ← field j "steps" >>= listOfJson (fun s => do
+    let n ← field s "name" >>= nameOfJson
+    let m ← methodOfJson s
+    pure (⟨n, m⟩ : Step))
+  let st : CState := { cost := v, isMax, disp, img, window := w, cvBands, dispDS }
+  let expected := (cvBands.getD []).map (·.name) ++ steps.flatMap Spec.expectedNames
+  let modelNames := (cvBands.getD []).map (·.name) ++
+    steps.flatMap (fun s => (Spec.stems s.method).map (fun stem => confPrefix ++ stem ++ indicatorOf s.name))
+  match runSteps st steps with
+  | none => return mkObj [("error", Json.bool true), ("expected_names", listToJson nameToJson expected),
+                          ("model_names", listToJson nameToJson modelNames)]
+  | some st' =>
+    let dispOut := match st'.dispDS with
+      | .none => Json.str "none"
+      | .ds bs => optBandsToJson bs
+    return mkObj [
+      ("error", Json.bool false),
+      ("cv_bands", optBandsToJson st'.cvBands), ("disp_bands", dispOut),
+      ("expected_names", listToJson nameToJson expected),
+      ("model_names", listToJson nameToJson modelNames),
+      ("cost_same", Json.bool (st'.cost == v)),
+      ("wta", valGridToJson ((laterDisparity st').1.map (fun r => r.map optVal)))]
+
+/-- `allocate_confidence_map` alone -/
+def opAllocate (j : Json) : Except String Json := do
+  let n ← field j "name" >>= nameOfJson
+  let m ← field j "map" >>= valGridOfJson
+  let cvBands ← optBandsOfJson (fieldD j "cv_bands" Json.null)
+  let dispKind ← strOfJson (fieldD j "disp_kind" (Json.str "empty"))
+  let dispBands ← optBandsOfJson (fieldD j "disp_bands" Json.null)
+  let dispDS : DispDS := if dispKind == "none" then .none else .ds dispBands
+  let (d, c) := allocate n m dispDS cvBands
+  let dispOut := match d with
+    | .none => Json.str "none"
+    | .ds bs => optBandsToJson bs
+  return mkObj [("cv_bands", optBandsToJson c), ("disp_bands", dispOut)]
+
+def opIndicator (j : Json) : Except String Json := do
+  let n ← field j "name" >>= nameOfJson
+  return mkObj [("model", nameToJson (indicatorOf n)), ("spec", nameToJson (Spec.suffixOf n))]
+
+def handle (op : String) (j : Json) : Except String Json :=
+  match op with
+  | "C12.arange" => opArange j
+  | "C12.ambiguity" => opAmbiguity j
+  | "C12.risk" => opRisk j
+  | "C12.bounds" => opBounds j
+  | "C12.regularize" => opRegularize j
+  | "C12.std" => opStd j
+  | "C12.steps" => opSteps j
+  | "C12.indicator" => opIndicator j
+  | "C12.allocate" => opAllocate j
+  | _ => throw s!"unknown op {op}"
 
 end Pandora.Driver.C12
